@@ -143,7 +143,7 @@ Definition step_corr (o : opts) (g : graph) (cx : actx) (env : tenv) (seq : bool
    end).
 
 Definition lib_env (c : libcase) (g : graph) : tenv :=
-  env_of g (map (fun n => (key_from_file_name (ni_name n), ni_tables n)) (lc_notes c)).
+  env_of g (map (fun n => (key_name (ni_name n), ni_tables n)) (lc_notes c)).
 
 (* correspondence stages:
    1 library import (collected trees and formatted text of every note)
@@ -189,9 +189,9 @@ Definition act_corr (c : actcase) (kinds : list nat) : list N :=
 (* ---------- helpers for the predicates ---------------------------------------------------- *)
 
 Definition note_in_of (c : libcase) (key : string) : option note_in :=
-  find (fun n => String.eqb (key_from_file_name (ni_name n)) key) (lc_notes c).
+  find (fun n => String.eqb (key_name (ni_name n)) key) (lc_notes c).
 
-Definition lib_keys (c : libcase) : list string := map (fun n => key_from_file_name (ni_name n)) (lc_notes c).
+Definition lib_keys (c : libcase) : list string := map (fun n => key_name (ni_name n)) (lc_notes c).
 
 Definition formatted_original (c : libcase) (key : string) : res string :=
   match find (fun o => String.eqb (no_key o) key) (lo_notes c) with
